@@ -605,9 +605,17 @@ def _varint_semantic(F, rep, w, r):
     from absint import Undecidable, Panic
     bad, undec, n = [], None, 0
     try:
-        for m in range(0, 9):
+        work = [(m, None) for m in range(0, 9)]
+        while work:
+            m, lead = work.pop(0)
             v = norm(BWord.cls(m))
             want = [m] + [("b", m - 1 - i, i == 0) for i in range(m)]
+            if lead is not None:
+                # the class with its leading byte fixed (a comparison with a constant cut through the class)
+                sl = list(BWord.cls(m).s)
+                sl[8 - m] = lead
+                v = norm(BWord(sl))
+                want[1] = lead
             sink = []
             n += 1
             try:
@@ -615,9 +623,14 @@ def _varint_semantic(F, rep, w, r):
             except Panic as e:
                 bad.append("writer panics for values of %d significant bytes (%s)" % (m, e))
                 continue
+            except Undecidable:
+                if lead is None and m >= 1:
+                    work = [(m, b) for b in range(1, 256)] + work
+                    continue
+                raise
             got = [slot_of(x) for x in sink]
             if got != want:
-                bad.append("values of %d significant bytes are written as %s, the format is %s" % (m, got, want))
+                bad.append("values of %d significant bytes%s are written as %s, the format is %s" % (m, "" if lead is None else " with leading byte 0x%02X" % lead, got, want))
             if not (isinstance(res, dict) and res.get("__var") == "Ok" and res.get("0") == len(want)):
                 bad.append("writer returns %s for %d bytes written" % (res.get("0") if isinstance(res, dict) else res, len(want)))
             # the reader on the format's encoding of the class
